@@ -26,7 +26,7 @@ RULE = "cases = ordered pairs and triples of pool members; the pool product is e
 ASSUMPTIONS = ["comparison looks only at the five stored strings, so near-collisions in each of them cover its behaviour"]
 
 SCHEMES = ["http", "https", "", "x"]
-AUTHS = ["h.com", "h.com:80", "h.com:81", "u@h.com", "H.com", "g.com", ""]
+AUTHS = ["h.com", "h.com:80", "h.com:81", "u@h.com", "H.com", "g.com", "", ":81", "u@"]
 PATHS = ["", "/", "/a", "/a/", "/%7Ea", "/~a", "/A", "a"]
 QUERIES = ["", "q=1", "q=2", "Q=1"]
 FRAGS = ["", "f", "g"]
